@@ -280,10 +280,19 @@ class NpCalls:
             ax = j.axes
             if fn == 'stack':
                 a = axis_arg(args, kwargs, 1)
+                # component-wise values (coordinates / their squares) without an xyz axis are single components: stacking
+                # them lines the components up along the new axis
+                comp = j.geo is not None and j.geo[0] in ('CART', 'CARTSQ', 'FRAC', 'FDIFF') and ax is not None and XYZ not in ax and not j.geo_conflict
+                newname = XYZ if comp else 'stacked'
+                if a in (-1,) or (ax is not None and a == len(ax)):
+                    if seq.elts is not None and (ax is None or len(ax) == 1):
+                        out = out.w(colvals=list(items), rows=None)  # 1-D arrays side by side: the columns of a table
+                    else:
+                        out = out.w(rows=None)
                 if ax is not None and a in (-1, len(ax)):
-                    out = out.w(axes=tuple(ax) + ('stacked',))
+                    out = out.w(axes=tuple(ax) + (newname,))
                 elif ax is not None and a in ('none', 0):
-                    out = out.w(axes=('stacked',) + tuple(ax))
+                    out = out.w(axes=(newname,) + tuple(ax))
             elif fn == 'vstack':
                 if ax is not None and len(ax) == 1:
                     out = out.w(axes=('row',) + tuple(ax))
